@@ -14,8 +14,8 @@ from vt.oracles import tagselect
 
 ID = 'C19'
 TIERS = {
-    'quick': dict(shards=16, modules=30, argvs=40, real_every=100, watchdog_s=900),
-    'thorough': dict(shards=16, modules=600, argvs=120, real_every=1000, watchdog_s=7000),
+    'quick': dict(shards=16, modules=30, argvs=40, pytest_runs=100, real_every=100, watchdog_s=900),
+    'thorough': dict(shards=16, modules=200, argvs=80, pytest_runs=2500, real_every=1000, watchdog_s=5000),
 }
 RULE = ('case = generated module (1-5 classes: ReferenceTestCase subclasses, a plain unittest.TestCase, subclasses of '
         'tagged/untagged classes; 0-4 tests each, tags on methods and/or classes, optional failing test) x argv spelling '
@@ -27,7 +27,7 @@ ASSUMPTIONS = [
     'unspecified: a single-dash tdda flag placed after a positional class name; the exit status of a listing run; naming individual methods',
     'test order is unittest\'s (classes and methods sorted by name), which -f (failfast) relies on',
 ]
-REQUIRED_MONITORS = ['runs:forked', 'runs:real_crosscheck', 'log:bodies_observed', 'listing:checked', 'verbose:checked',
+REQUIRED_MONITORS = ['runs:forked', 'runs:pytest_driven', 'runs:real_crosscheck', 'log:bodies_observed', 'listing:checked', 'verbose:checked',
                      'failfast:checked']
 REQUIRED_CLASSES = ['mode=all', 'mode=tagged', 'mode=list', 'spelling=-1', 'spelling=--tagged', 'spelling=-0',
                     'spelling=--istagged', 'spelling=both-glued', 'spelling=both-separate', 'spelling=both-long', 'spelling=both-mixed', 'cluster=1', 'classes_named=1', 'write_flag=1', 'inheritance=1']
@@ -152,6 +152,8 @@ def gen_argv(rng, classes, i):
 
 
 def run_case(ctx, case, real=False):
+    if case.get('via') == 'pytest':
+        return run_pytest_case(ctx, case)
     rec = ctx.rec
     d = os.path.join(ctx.scratch, 'c19')
     os.makedirs(d, exist_ok=True)
@@ -216,8 +218,157 @@ def run_case(ctx, case, real=False):
     return obs
 
 
+# ------------------------------------------------------------------------------------------------------------
+# the same property through pytest (tdda's collection filter): function-style tests, plain classes and
+# ReferenceTestCase classes in one module, run with --tagged / --istagged / neither / both
+
+PT_HEADER = '''import os
+from tdda.referencetest import ReferenceTestCase, tag
+LOG = os.environ['VT_LOG']
+def hit(who, name):
+    with open(LOG, 'a') as f:
+        f.write('%s.%s %d\\n' % (who, name, os.getpid()))
+'''
+
+
+def pytest_main():
+    import sys
+    import pytest
+    return int(pytest.main(sys.argv[1:]))
+
+
+def gen_pytest_module(rng):
+    """Items in definition (= collection) order."""
+    items = []
+    nf = nc = 0
+    for _ in range(rng.randint(2, 8)):
+        if rng.random() < 0.55:
+            items.append({'what': 'func', 'name': 'test_f%d' % nf, 'tagged': rng.random() < 0.4})
+            nf += 1
+        else:
+            prev = [x for x in items if x['what'] == 'class']
+            base = rng.choice(['object', 'object', 'ReferenceTestCase'])
+            if prev and rng.random() < 0.25:
+                base = rng.choice(prev)['name']
+            tests = [{'name': 'test_%s' % 'abcdef'[j], 'tagged': rng.random() < 0.4} for j in sorted(rng.sample(range(6), rng.randint(0, 3)))]
+            items.append({'what': 'class', 'name': 'TestK%d' % nc, 'base': base, 'tagged': rng.random() < 0.25, 'tests': tests})
+            nc += 1
+    return items
+
+
+def pytest_module_source(items):
+    s = [PT_HEADER]
+    for it in items:
+        if it['tagged']:
+            s.append('@tag')
+        if it['what'] == 'func':
+            s.append('def %s():\n    hit("func", %r)\n' % (it['name'], it['name']))
+        else:
+            s.append('class %s(%s):' % (it['name'], it['base']))
+            if not it['tests']:
+                s.append('    pass')
+            for t in it['tests']:
+                if t['tagged']:
+                    s.append('    @tag')
+                s.append('    def %s(self):\n        hit(type(self).__name__, %r)' % (t['name'], t['name']))
+            s.append('')
+    return '\n'.join(s)
+
+
+def pytest_expected(items, mode):
+    """(executed ids, listed names) by the documented rule: a test is tagged when it, or its class (by normal
+    attribute inheritance), carries the tag."""
+    classes = {}
+    every, tagged, listed = [], [], set()
+    for it in items:
+        if it['what'] == 'func':
+            every.append('func.' + it['name'])
+            if it['tagged']:
+                tagged.append('func.' + it['name'])
+                listed.add(it['name'])
+            continue
+        base = classes.get(it['base'])
+        tests = dict(base['tests']) if base else {}
+        for t in it['tests']:
+            tests[t['name']] = t['tagged']
+        ctag = it['tagged'] or bool(base and base['tagged'])
+        classes[it['name']] = {'tests': tests, 'tagged': ctag}
+        for name, tg in tests.items():
+            every.append('%s.%s' % (it['name'], name))
+            if ctag or tg:
+                tagged.append('%s.%s' % (it['name'], name))
+                listed.add(it['name'])
+    if mode == 'all':
+        return every, None
+    if mode == 'tagged':
+        return tagged, None
+    return [], listed
+
+
+def run_pytest_case(ctx, case):
+    rec = ctx.rec
+    d = os.path.join(ctx.scratch, 'c19pt')
+    os.makedirs(d, exist_ok=True)
+    with open(os.path.join(d, 'conftest.py'), 'w') as f:
+        f.write('from tdda.referencetest.pytestconfig import *   # the documented boilerplate\n')
+    path = os.path.join(d, 'test_ptmod.py')
+    with open(path, 'w') as f:
+        f.write(pytest_module_source(case['items']))
+    log = os.path.join(d, 'hits.log')
+    if os.path.exists(log):
+        os.unlink(log)
+    mode = case['mode']
+    want, listed = pytest_expected(case['items'], mode)
+    every, _ = pytest_expected(case['items'], 'all')
+    tg, _ = pytest_expected(case['items'], 'tagged')
+    kinds = sorted(set(it['what'] if it['what'] == 'func' else ('rtc-class' if it['base'] == 'ReferenceTestCase' else 'class') for it in case['items']))
+    rec.case(case, nontrivial=bool(tg) and len(tg) < len(every) and mode != 'all',
+             cls=[('mode=' + mode,), ('spelling=pytest ' + ' '.join(a for a in case['argv'] if a in ('--tagged', '--istagged')),),
+                  ('pytest_items=' + '+'.join(kinds),)])
+    forkserver.warm(extra=('pytest', '_pytest.config', '_pytest.main', '_pytest.python', 'tdda.referencetest.pytestconfig'))
+    env = {'VT_LOG': log, 'TDDA_FAIL_DIR': d, 'PYTEST_DISABLE_PLUGIN_AUTOLOAD': '1'}
+    res = forkserver.fork_run(pytest_main, ['pytest', '-p', 'no:cacheprovider'] + case['argv_pre'] + [path] + case['argv'],
+                              cwd=d, env=env, scratch=ctx.scratch)
+    rec.event('runs:pytest_driven')
+    if res.timed_out:
+        rec.unspecified('watchdog: run did not finish')
+        return
+    hits = [l.split()[0] for l in open(log).read().splitlines() if l.strip()] if os.path.exists(log) else []
+    rec.event('log:bodies_observed', len(hits))
+    mech = {'via': 'pytest', 'mode': mode, 'items': kinds}
+    facts = {'argv': case['argv_pre'] + ['<module>'] + case['argv'], 'executed': hits[:14], 'expected': want[:14], 'status': res.status,
+             'stdout_tail': res.out[-500:], 'stderr_tail': res.err[-300:]}
+    if sorted(hits) != sorted(want):
+        extra = sorted(set(hits) - set(want))
+        rec.violation('wrong_tests_executed', {'case': case, 'mech': dict(mech, extra_kind=sorted(set(x.split('.')[0] == 'func' and 'func' or 'method' for x in extra)),
+                                                                      missing=bool(set(want) - set(hits)), repeated=len(hits) != len(set(hits))),
+                                               'facts': facts})
+        return
+    if mode == 'list':
+        rec.event('listing:checked')
+        named = set(m.group(1) for m in re.finditer(r'^test_ptmod\.(\w+)\s*$', res.out, re.M))
+        if named != listed:
+            rec.violation('listing_names', {'case': case, 'mech': mech, 'facts': dict(facts, listed=sorted(named), want=sorted(listed))})
+
+
+def gen_pytest_case(rng, i):
+    mode, flags = [('all', []), ('tagged', ['--tagged']), ('list', ['--istagged']), ('list', ['--tagged', '--istagged']),
+                   ('tagged', ['--tagged'])][i % 5]
+    flags = list(flags)
+    rng.shuffle(flags)
+    other = [f for f in ('-v', '-q', '-x') if rng.random() < 0.3]
+    if '-v' in other and '-q' in other:
+        other.remove('-v')
+    pre, post = [], []
+    for f in other + flags + ['-s']:
+        (pre if rng.random() < 0.5 else post).append(f)
+    return {'items': gen_pytest_module(rng), 'mode': mode, 'argv_pre': pre, 'argv': post, 'via': 'pytest'}
+
+
 def run_shard(ctx):
     rng = ctx.rng
+    for i in range(ctx.params.get('pytest_runs', 0)):
+        run_pytest_case(ctx, gen_pytest_case(rng, i))
     k = 0
     for m in range(ctx.params['modules']):
         classes = gen_module(rng)
